@@ -74,3 +74,21 @@ Theorem c14_generic_validate_only_if : forall tok r,
   generic_validate tok r = true -> tok <> [] /\ rp_transport_ok r = true /\ rp_status r = 200%Z.
 Proof. exact generic_validate_only_if. Qed.
 Print Assumptions c14_generic_validate_only_if.
+
+(* ---- a profile answer that yields no e-mail ---- *)
+From V.Model Require Authz.
+From V.Proofs Require AuthzProofs.
+
+(* Providers report "the profile answer held no usable e-mail" by leaving the session's e-mail empty (GitHub
+   /user/emails without a verified primary address, Bitbucket without a primary one, a userinfo document without
+   the claim).  Whatever the configured e-mail domains - the wildcard included - whatever the authenticated-emails
+   file and the group rule: such a login is not admitted. *)
+Theorem c14_no_email_no_session : forall domains file allowed s,
+  Authz.a_email s = [] -> Authz.login_admits (Authz.email_valid domains file) allowed s = false.
+Proof. exact AuthzProofs.login_without_email_refused. Qed.
+Print Assumptions c14_no_email_no_session.
+
+Example c14_no_email_wildcard :
+  Authz.login_admits (Authz.email_valid [Bytes.s "*"] []) [] {| Authz.a_email := []; Authz.a_groups := [] |} = false
+  /\ Authz.login_admits (Authz.email_valid [Bytes.s "*"] []) [] {| Authz.a_email := Bytes.s "dev@example.com"; Authz.a_groups := [] |} = true.
+Proof. split; vm_compute; reflexivity. Qed.
